@@ -24,6 +24,7 @@ func (dw *defaultWalkerPipeline) walk(ctx context.Context, roots <-chan *Node, c
 
 	go func() {
 		defer func() {
+			verifPoint("sink.close", 0, "")
 			close(errc)
 		}()
 
@@ -40,17 +41,26 @@ func (dw *defaultWalkerPipeline) walk(ctx context.Context, roots <-chan *Node, c
 
 func (dw *defaultWalkerPipeline) worker(ctx context.Context, wg *sync.WaitGroup, roots <-chan *Node, callback func(*WalkerNode) error, errc chan<- error) {
 	defer wg.Done()
+	vid := verifStart("sink")
+	defer verifPoint("sink.exit", vid, "")
 	for {
+		verifPoint("sink.recv.pre", vid, "")
 		select {
 		case <-ctx.Done():
+			verifPoint("sink.recv.ctx", vid, "")
 			return
 		case root, ok := <-roots:
 			if !ok {
+				verifPoint("sink.recv.closed", vid, "")
 				return
 			}
+			verifPoint("sink.recv.post", vid, verifName(root))
 			if err := dw.walkNode(root, callback); err != nil {
+				verifPoint("sink.errsend.pre", vid, verifName(root))
 				errc <- err
+				verifPoint("sink.errsend.post", vid, verifName(root))
 			}
+			verifPoint("sink.done", vid, verifName(root))
 		}
 	}
 }
